@@ -469,6 +469,18 @@ def gen_action(h, d, pfx, pools):
     name = h.choice(pfx + "name", pools.names)
     return ["AddTable", name, [{"id": "A", "type": "Text", "isFormula": False},
                                {"id": "B", "type": "Any", "isFormula": True, "formula": "$A"}]]
+  if kind == "RawDup":
+    # a stored doc action naming a row twice, replayed as it is through ApplyDocActions (the redo path: no user-level clean-up)
+    t = h.choice(pfx + "table", d.user_tables(summaries=False))
+    dcols = [c for c in d.columns(t) if not d.e.schema[t].columns[c].isFormula and c != "manualSort"
+             and not d.e.schema[t].columns[c].type.startswith("Ref")]
+    rows = d.row_ids(t)[:2]
+    if not dcols or not rows:
+      return ["ApplyDocActions", []]
+    c = h.choice(pfx + "col", dcols)
+    v1 = _val(h.choice(pfx + "val", pools.vals), d, t, c, rows[0])
+    v2 = _val(h.choice(pfx + "val2", Pools.SMALL["vals"]), d, t, c, rows[0])
+    return ["ApplyDocActions", [["BulkUpdateRecord", t, [rows[0], rows[0]] + rows[1:], {c: [v1, v2] + [v1] * len(rows[1:])}]]]
   if kind == "Fail":
     # an action that always raises (unknown column): turns the bundle into a rolled-back one
     return ["UpdateRecord", t0, 1, {"NoSuchColumn_": 1}]
